@@ -32,14 +32,22 @@ LEVEL_TEXT = ("Coq theorems over an exact-rational executable model of the genom
               "normal-equation residual is bounded by atol*sum_{j>i}|A_ij| whenever the loop stops before maxiter. The model is tied to the code by "
               "evaluating it inside Coq against the implementation's outputs (exact equality for the linear part and counts; variances and Bulmer "
               "ratios within 2^-30 RELATIVE, so that a model value of exactly zero or NaN demands exactly zero or NaN; breeding value matrices "
-              "within 2^-30 of the largest magnitude of their trait column; 2^-30(1+|x|) for scores and solver output) on generated models, genotype inputs in three representations, permutations and partitions")
+              "within 2^-30 of the largest magnitude of their trait column; 2^-30(1+|x|) for scores and solver output) on generated models, genotype inputs in three representations, permutations and partitions. "
+              "The expressions on which these theorems turn (sign tests, which allele/count is taken, exact zero tests, quotients, the dominance indicator and "
+              "block order, which effects enter which product, 1 - SSE/SST, the genic-variance formula, the Gauss-Seidel update, movement test and loop guard, "
+              "the polymorphism mask, the ridge quotient: 111 definitions) are regenerated from the source on every run (Gen/C04_Kernel.v), proved equal to the "
+              "hand model by reflexivity and the property's clauses are re-proved about the generated definitions, so a changed expression fails the build "
+              "whatever the sampled cases exercise; model objects are also obtained through copy/deepcopy/setters/in-place updates of used objects, every "
+              "returned array is overwritten after it is recorded and calls are repeated (a result is a function of the state at the call)")
 LEVEL_NOTE = ("trusted: Coq kernel + vm_compute (no axioms: Print Assumptions reports 'Closed under the global context' for every theorem); "
               "NOT modelled: Nelder-Mead/eigh of rrBLUP_ML0 (the ridge parameter varE/varU is read back from the implementation and the clauses of "
               "the property are evaluated exactly in Q on the implementation's (beta, u)); the standardisation inside "
               "DenseBreedingValueMatrix.from_numpy is observed only through unscale()/location/labels; binary64 rounding is not modelled (inputs on "
               "dyadic grids, also after scaling a trait by a power of two, make the linear part exact; the other statistics are compared within a "
               "2^-30 relative / column-relative / 2^-30(1+|x|) tolerance); theorems are about the Gallina model, "
-              "the tie to the code is differential on generated inputs")
+              "the tie to the code is differential on generated inputs, plus the regenerated kernel expressions (harness/translate/c04_kernel.py is trusted: it maps "
+              "numpy.where/logical_and/divide, `x.sum(0)`, `A @ B`, numpy.concatenate to their element-wise / list meaning and compares the statements it does "
+              "not translate verbatim; it fails closed on anything else, e.g. numpy.isclose)")
 TECHNIQUE = "Coq proof over an executable exact-rational model; in-Coq vm_compute correspondence with the implementation"
 RULE = ("three kinds of case from one PRNG. lin: class in {additive, additive+dominance, rrBLUPModel0 as container, DenseLinearGenomicModel via a "
         "stub subclass}, beta (1-4 fixed effects) / u_misc (0-2) / u_a / u_d on the grid k/8 with exact zeros, zero rows and all-zero matrices, 1-3 traits, "
@@ -53,9 +61,20 @@ RULE = ("three kinds of case from one PRNG. lin: class in {additive, additive+do
         "{0, 2^-20..1, 1e-8}, maxiter 0-6. fit: rrBLUPModel0.fit_numpy/fit (ndarray, GenotypeMatrix, BreedingValueMatrix inputs) on 3-9 records x 1-4 "
         "markers, 1-2 traits, monomorphic columns at 0/1/2, duplicated polymorphic markers, traits determined exactly by a marker, 20% with the "
         "responses times 2^-12 or 2^8. "
+        "Lifecycle: every lin case obtains its model through a route in {constructor, copy.copy, copy.deepcopy, .copy(), .deepcopy() (the original is "
+        "overwritten in place afterwards), property setters on a decoy model that has been used, in-place writes into the arrays of a used decoy model (the "
+        "matrix objects are then also built on other dosages, used, and overwritten in place)}; 40% of the cases pass non-default dtype arguments to the "
+        "allele statistics (result dtype checked); var_a_numpy/bulmer_numpy are called with explicit frequencies; every returned array is overwritten "
+        "after recording and six calls are repeated at the end; inputs (coefficients, trait names, genotype matrices, taxon labels and groups, X, Y, Z) "
+        "are compared with pristine copies; the read-only classes must refuse fit/fit_numpy; shape bookkeeping (nexplan*/nparam*/ntrait) is checked; "
+        "special cases with 130 (300 in thorough) tetraploid taxa (allele counts > 255) and 260 (300) markers. gs: also keyword and default arguments, "
+        "the result overwritten and the call repeated. fit: also method/model_name/hyperparams keywords, covariates given, copies of the fitted model, "
+        "rrBLUP_ML0 with explicit gsatol/gsmaxiter re-run in Coq. Entry points: every public class/function/method/property/parameter list of the six "
+        "anchored modules is enumerated at run time and must be classified (driven / skipped with a reason), else the check fails. "
         "non-trivial = lin: >= 2 taxa, a polymorphic marker, at least two of the three effect signs, non-identity permutation; gs: >= 2 unknowns, "
         ">= 2 sweeps allowed, atol > 0, b != 0; fit: a polymorphic marker and n > p_polymorphic. distinct by SHA-256 of the case")
-TRUSTED = ["scipy.optimize.minimize (Nelder-Mead) and numpy.linalg.eigh inside rrBLUP_ML0 are not modelled: varE, varU are taken from the implementation",
+TRUSTED = ["harness/translate/c04_kernel.py (ast -> Gallina for the kernel expressions; fail closed)",
+           "scipy.optimize.minimize (Nelder-Mead) and numpy.linalg.eigh inside rrBLUP_ML0 are not modelled: varE, varU are taken from the implementation",
            "numpy float64 matmul/sum on dyadic-grid inputs (times a power of two per trait) is exact (regime E); var/std/division are compared within 2^-30 relative or 2^-30(1+|x|) (regime T)",
            "DenseLinearGenomicModel is abstract in /repo: it is exercised through a subclass created by the harness that only empties __abstractmethods__",
            "classification of C04-gs-maxiter uses a reference float Gauss-Seidel loop in the harness to decide whether the specified algorithm itself needs more than 1000 sweeps"]
@@ -1249,8 +1268,8 @@ def _special_cases(quick):
     r2 = __import__("random").Random(20260930)
     # more markers than an 8-bit integer can count (p = 260) and more taxa than int8/uint8 can count (n = 130 / 300, tetraploid:
     # allele counts up to 1200), each through a different route, with exact-zero, positive and negative effects
-    big = [("A", 2, 260, 2, "deepcopy"), ("L", 130, 2, 4, "setters")]
-    if not quick: big += [("AD", 130, 3, 4, "inplace"), ("L", 300, 2, 4, "inplace"), ("RR", 140, 2, 2, "copy_m"), ("AD", 3, 300, 3, "copy")]
+    big = [("A", 130, 2, 4, "deepcopy"), ("L", 130, 2, 4, "setters"), ("AD", 2, 260, 2, "inplace")]
+    if not quick: big += [("AD", 130, 3, 4, "inplace"), ("L", 300, 2, 4, "inplace"), ("RR", 140, 2, 2, "copy_m"), ("A", 3, 300, 3, "copy"), ("L", 2, 260, 2, "copy")]
     for cls, n, p, pl, route in big:
         dos = [[r2.choice([0, pl, pl, r2.randint(0, pl)]) for _ in range(p)] for _ in range(n)]
         for i in range(n): dos[i][0] = pl                 # a fixed marker next to polymorphic ones
